@@ -273,3 +273,116 @@ impl<W: Write> Writer<W> {
 //@end
 }
 }
+
+// ---- the asynchronous copies (src/writer/async_tokio.rs), `async`/`.await` erased: same contract ----
+pub mod writer_async_ {
+use super::*;
+use vstd::prelude::*;
+use crate::writer_::*;
+pub type Result<T> = core::result::Result<T, Error>;
+
+impl<W: Write> Writer<W> {
+//@extract writer_async::write_event_async | src/writer/async_tokio.rs :: impl<W: AsyncWrite + Unpin> Writer<W> :: fn write_event_async | serves=C09,C19 features=async-tokio drop=async,await
+//@rewrite write_event_async<'a, E: Into<Event<'a>>>(&mut self, event: E) ==> write_event_async<'a>(&mut self, event: Event<'a>)
+//@rewrite match event.into() { ==> match event {
+ pub(crate) fn write_event_async<'a>(&mut self, event: Event<'a>) -> (res: Result<()>)
+        requires old(self).inv(),
+            old(self).indent matches Some(i) ==> i.current_indent_len + 2 * i.indent_size <= usize::MAX,
+        ensures
+            // the same contract as the synchronous write_event: both write the same bytes (C09)
+            res is Ok ==> final(self).writer.out() == old(self).writer.out() + old(self).pre(event) + render(event),
+            old(self).indent is None ==> final(self).indent is None,
+            res is Ok ==> (old(self).indent matches Some(i0) ==> (final(self).indent matches Some(i1)
+                && i1.inv() && i1.indent_char == i0.indent_char && i1.indent_size == i0.indent_size
+                && i1.should_line_break == !(event is Text || event is CData)
+                && i1.current_indent_len as int == (if event is Start { i0.current_indent_len + i0.indent_size }
+                      else if event is End { if i0.current_indent_len >= i0.indent_size { i0.current_indent_len - i0.indent_size } else { 0int } }
+                      else { i0.current_indent_len as int }))),
+ {
+        let mut next_should_line_break = true;
+        let result = match event {
+            Event::Start(e) => {
+                let result = self.write_wrapped_async(&[b'<'], &e, &[b'>']);
+                if let Some(i) = self.indent.as_mut() {
+                    i.grow();
+                }
+                result
+            }
+            Event::End(e) => {
+                if let Some(i) = self.indent.as_mut() {
+                    i.shrink();
+                }
+                self.write_wrapped_async(&[b'<', b'/'], &e, &[b'>'])
+            }
+            Event::Empty(e) => self.write_wrapped_async(&[b'<'], &e, &[b'/', b'>']),
+            Event::Text(e) => {
+                next_should_line_break = false;
+                self.write_async(&e)
+            }
+            Event::Comment(e) => self.write_wrapped_async(&[b'<', b'!', b'-', b'-'], &e, &[b'-', b'-', b'>']),
+            Event::CData(e) => {
+                next_should_line_break = false;
+                self.write_async(&[b'<', b'!', b'[', b'C', b'D', b'A', b'T', b'A', b'['])?;
+                self.write_async(&e)?;
+                self.write_async(&[b']', b']', b'>'])
+            }
+            Event::Decl(e) => self.write_wrapped_async(&[b'<', b'?'], &e, &[b'?', b'>']),
+            Event::PI(e) => self.write_wrapped_async(&[b'<', b'?'], &e, &[b'?', b'>']),
+            Event::DocType(e) => self.write_wrapped_async(&[b'<', b'!', b'D', b'O', b'C', b'T', b'Y', b'P', b'E', b' '], &e, &[b'>']),
+            Event::Eof => Ok(()),
+        };
+        if let Some(i) = self.indent.as_mut() {
+            i.should_line_break = next_should_line_break;
+        }
+        result
+    }
+//@end
+//@extract writer_async::write_indent_async | src/writer/async_tokio.rs :: impl<W: AsyncWrite + Unpin> Writer<W> :: fn write_indent_async | serves=C09,C19 features=async-tokio drop=async,await n11=all
+ pub fn write_indent_async(&mut self) -> (r: Result<()>)
+        requires old(self).inv()
+        ensures final(self).indent == old(self).indent,
+            r is Ok ==> final(self).writer.out() == old(self).writer.out()
+                + (match old(self).indent { Some(i) => nl_indent(i.indent_char, i.current_indent_len as nat), None => Seq::empty() }),
+ {
+        if let Some(ref i) = self.indent {
+            match self.writer.write_all(&[b'\n']) { Ok(v__) => v__, Err(e__) => return Err(From::from(e__)) };
+            match self.writer.write_all(i.current()) { Ok(v__) => v__, Err(e__) => return Err(From::from(e__)) };
+        }
+        Ok(())
+    }
+//@end
+//@extract writer_async::write_async | src/writer/async_tokio.rs :: impl<W: AsyncWrite + Unpin> Writer<W> :: fn write_async | serves=C09,C19 features=async-tokio drop=async,await
+ fn write_async(&mut self, value: &[u8]) -> (r: Result<()>)
+        ensures final(self).indent == old(self).indent,
+            r is Ok ==> final(self).writer.out() == old(self).writer.out() + value@,
+ {
+        self.writer.write_all(value).map_err(Into::into)
+    }
+//@end
+//@extract writer_async::write_wrapped_async | src/writer/async_tokio.rs :: impl<W: AsyncWrite + Unpin> Writer<W> :: fn write_wrapped_async | serves=C09,C19 features=async-tokio drop=async,await n11=1,2
+ fn write_wrapped_async(
+        &mut self,
+        before: &[u8],
+        value: &[u8],
+        after: &[u8],
+    ) -> (r: Result<()>)
+        requires old(self).inv()
+        ensures final(self).indent == old(self).indent,
+            r is Ok ==> final(self).writer.out() == old(self).writer.out()
+                + (match old(self).indent { Some(i) => if i.should_line_break { nl_indent(i.indent_char, i.current_indent_len as nat) } else { Seq::empty() }, None => Seq::empty() })
+                + before@ + value@ + after@,
+    {
+        if let Some(ref i) = self.indent {
+            if i.should_line_break {
+                match self.writer.write_all(&[b'\n']) { Ok(v__) => v__, Err(e__) => return Err(From::from(e__)) };
+                match self.writer.write_all(i.current()) { Ok(v__) => v__, Err(e__) => return Err(From::from(e__)) };
+            }
+        }
+        self.write_async(before)?;
+        self.write_async(value)?;
+        self.write_async(after)?;
+        Ok(())
+    }
+//@end
+}
+}
